@@ -512,6 +512,23 @@ def build_world(I, ctx, rng, n_sel, n_pipe, stats):
         if rng.random() < 0.5:
             cks[0] = rng.choice([i for i in range(len(I.CK)) if classes[target].supports_compilation(I.CK[i])])
         q = {"prefs": rand_prefs(), "names": None, "cks": cks, "kind": rand_kind(target)}
+        if rng.random() < 0.6:
+            # guided: walk some compilers that accept the kind, so that most of these pipelines can be built
+            q["prefs"] = rng.sample(allnames, len(allnames))
+            try:
+                k, g = I.kind(q["kind"]), []
+                for _ in range(n_ck):
+                    cand = [(n, i) for n in allnames if classes[n].is_compiler() and classes[n].supports(k)
+                            for i in range(len(I.CK)) if classes[n].supports_compilation(I.CK[i])]
+                    if not cand:
+                        break
+                    n, i = rng.choice(cand)
+                    g.append(i)
+                    k = classes[n].resulting_problem_kind(k, I.CK[i])
+                if g:
+                    q["cks"] = cks = g
+            except Exception:
+                pass
         if rng.random() < 0.12:
             q["names"] = [rng.choice([None, None] + allnames) for _ in cks]
             if rng.random() < 0.15:
